@@ -313,8 +313,26 @@ pub fn check(rep: &mut Rep, d: i128, s1: TimeScale, x: i128) {
                 }
                 let wp = want + x;
                 if in_bounds(wp) && in_bounds(d + x) && in_bounds(t + x) {
-                    if count_d(plus.duration) != wp || count_d(plus2.duration) != wp || plus.time_scale != s2 {
-                        rep.fail("convert/commutes-with-add", None, || format!("{} with +{}: (e+x).to = {} ; e.to+x = {} ; want {}", det(), x, count_d(plus.duration), count_d(plus2.duration), wp));
+                    // (both sides are epochs: "identical" includes the one observable form of the count)
+                    if plus.duration.to_parts() != canon(wp) || plus2.duration.to_parts() != canon(wp) || plus.time_scale != s2 || plus2.time_scale != s2 {
+                        rep.fail("convert/commutes-with-add", None, || format!("{} with +{}: (e+x).to = {} ; e.to+x = {} ; want {} = {}", det(), x, fmt_parts(plus.duration.to_parts()), fmt_parts(plus2.duration.to_parts()), wp, fmt_parts(canon(wp))));
+                    }
+                }
+                // ... and with the duration that makes the sum land exactly on a whole century of the target scale, and on
+                // one of the source scale (where a carry has to happen on one side of the equation and not on the other)
+                for land in [want.div_euclid(NPC) * NPC + NPC - want, d.div_euclid(NPC) * NPC + NPC - d, want.div_euclid(NPC) * NPC - want] {
+                    let wl = want + land;
+                    if !(in_bounds(wl) && in_bounds(d + land) && in_bounds(t + land)) {
+                        continue;
+                    }
+                    match guard(|| ((e + mk(land)).to_time_scale(s2), e.to_time_scale(s2) + mk(land), (e + mk(land)).to_time_scale(s1), named(&(e + mk(land)), s2))) {
+                        Err(p) => rep.fail(&format!("convert/panic/{}", p.class()), None, || format!("{} with +{land} panicked: {} at {}", det(), p.msg, p.loc)),
+                        Ok((a, b, own, nm2)) => {
+                            rep.class("conv/sum-lands-on-a-century");
+                            if a.duration.to_parts() != canon(wl) || b.duration.to_parts() != canon(wl) || own.duration.to_parts() != canon(d + land) || nm2.to_parts() != canon(wl) {
+                                rep.fail("convert/commutes-with-add", None, || format!("{} with +{land} (century landing): (e+x).to = {} ; e.to+x = {} ; (e+x) in its own scale {} ; named accessor {} ; want {}", det(), fmt_parts(a.duration.to_parts()), fmt_parts(b.duration.to_parts()), fmt_parts(own.duration.to_parts()), fmt_parts(nm2.to_parts()), fmt_parts(canon(wl))));
+                            }
+                        }
                     }
                 }
             }
